@@ -90,9 +90,9 @@ Qed.
 
 (* ---------------- round trip ---------------- *)
 
-(* the open-type members' tags: good tags; a member without a tag only under std *)
-Definition tags_ok (std : bool) (tags : list (option Z)) : bool :=
-  forallb (fun t => match t with Some tg => (0 <? tg) && (tg / 4 <? two30) | None => std end) tags.
+(* the open-type members' tags: good tags, or no tag of its own *)
+Definition tags_ok (tags : list (option Z)) : bool :=
+  forallb (fun t => match t with Some tg => (0 <? tg) && (tg / 4 <? two30) | None => true end) tags.
 
 (* the row's type cells are well-formed types and the values belong to them *)
 Fixpoint opens_ok (tys : list ty) (vs : list val) : bool :=
@@ -110,35 +110,35 @@ Proof. unfold opt_ok. destruct t; auto. discriminate. Qed.
 Lemma seq_tag_good : tag_good seq_tag.
 Proof. unfold tag_good, seq_tag, utag, two30. split; [lia|]. vm_compute. reflexivity. Qed.
 
-Lemma dec_open_rt std tag t v b rest :
-  (match tag with Some tg => tag_good tg | None => std = true end) ->
+Lemma dec_open_rt tag t v b rest :
+  (match tag with Some tg => tag_good tg | None => True end) ->
   wf_ty t = true -> not_opt t = true -> wt t v = true -> der t v = Some b ->
   zlen (wrap tag b) <= rssize_max ->
-  dec_open std tag t (wrap tag b ++ rest) = Some (v, rest).
+  dec_open tag t (wrap tag b ++ rest) = Some (v, rest).
 Proof.
   intros Htag Hwf Hno Hwt Hd Hl. destruct tag as [tg|]; cbn [wrap dec_open] in *.
   - pose proof (tlv_length tg true b).
     rewrite in_cons_tlv by (auto; lia).
     pose proof (der_decodes_all t v b [] Hwf Hwt Hd ltac:(lia) (not_opt_opt_ok t v [] Hno)) as Hr.
     rewrite app_nil_r in Hr. rewrite Hr. reflexivity.
-  - subst std. apply der_decodes_all; auto. apply not_opt_opt_ok. exact Hno.
+  - apply der_decodes_all; auto. apply not_opt_opt_ok. exact Hno.
 Qed.
 
-Lemma tags_ok_cons std tag tags : tags_ok std (tag :: tags) = true ->
-  (match tag with Some tg => tag_good tg | None => std = true end) /\ tags_ok std tags = true.
+Lemma tags_ok_cons tag tags : tags_ok (tag :: tags) = true ->
+  (match tag with Some tg => tag_good tg | None => True end) /\ tags_ok tags = true.
 Proof.
   unfold tags_ok. cbn [forallb]. intros H. apply andb_true_iff in H. destruct H as [H1 H2].
-  split; [|exact H2]. destruct tag; [apply wf_tag_good; exact H1|exact H1].
+  split; [|exact H2]. destruct tag; [apply wf_tag_good; exact H1|exact I].
 Qed.
 
 Lemma wrap_length tag b : zlen b <= zlen (wrap tag b).
 Proof. destruct tag; cbn [wrap]; [apply tlv_length|lia]. Qed.
 
-Lemma opens_rt std tbl i : forall tags tys j vs b rest,
+Lemma opens_rt tbl i : forall tags tys j vs b rest,
   (forall k, nth_error tys k = nth_error (row_types tbl i) (j + k)) ->
-  tags_ok std tags = true -> opens_ok tys vs = true ->
+  tags_ok tags = true -> opens_ok tys vs = true ->
   der_opens tbl tags j (with_row i vs) = Some b -> zlen b <= rssize_max ->
-  dec_opens std tags tys i (b ++ rest) = Some (with_row i vs, rest).
+  dec_opens tags tys i (b ++ rest) = Some (with_row i vs, rest).
 Proof.
   induction tags as [|tag tags IH]; intros tys j vs b rest Hty Htags Hok Hd Hl;
     destruct vs as [|v vs]; cbn [with_row map der_opens] in Hd; try discriminate.
@@ -154,10 +154,10 @@ Proof.
     apply andb_true_iff in Hok. destruct Hok as [Hok Hokr].
     apply andb_true_iff in Hok. destruct Hok as [Hok Hwt].
     apply andb_true_iff in Hok. destruct Hok as [Hwf Hno].
-    destruct (tags_ok_cons std tag tags Htags) as [Htag Htags'].
+    destruct (tags_ok_cons tag tags Htags) as [Htag Htags'].
     rewrite zlen_app in Hl. pose proof (zlen_nonneg (wrap tag bv)). pose proof (zlen_nonneg br).
     cbn [dec_opens]. rewrite <- app_assoc.
-    rewrite (dec_open_rt std tag t v bv (br ++ rest) Htag Hwf Hno Hwt Ev ltac:(lia)).
+    rewrite (dec_open_rt tag t v bv (br ++ rest) Htag Hwf Hno Hwt Ev ltac:(lia)).
     fold (with_row i vs) in Er.
     rewrite (IH tys' (S j) vs br rest); [reflexivity| |exact Htags'|exact Hokr|exact Er|lia].
     intros k. specialize (Hty (S k)). cbn [nth_error] in Hty. rewrite Hty. f_equal. lia.
@@ -169,12 +169,12 @@ Proof. destruct ovs; cbn [der_opens]; intros H; [injection H as <-; auto|discrim
 (* decoding the DER of a frame whose open-type values belong to the row the
    identifier selects returns the identifier, the row, the same values, and
    exactly the bytes that followed *)
-Theorem opentype_roundtrip std f idv i tys vs bs rest :
+Theorem opentype_roundtrip f idv i tys vs bs rest :
   wf_ty (f_idt f) = true -> not_opt (f_idt f) = true -> wt (f_idt f) idv = true ->
-  tags_ok std (f_opens f) = true ->
+  tags_ok (f_opens f) = true ->
   select (f_tbl f) idv = Some (i, tys) -> opens_ok tys vs = true ->
   der_frame f (idv, with_row i vs) = Some bs -> zlen bs <= rssize_max ->
-  ber_dec_frame std f (bs ++ rest) = Some ((idv, with_row i vs), rest).
+  ber_dec_frame f (bs ++ rest) = Some ((idv, with_row i vs), rest).
 Proof.
   intros Hwf Hno Hwt Htags Hsel Hok Hd Hl. unfold der_frame in Hd. cbn [fst snd] in Hd.
   destruct (der (f_idt f) idv) as [a|] eqn:Ea; [|discriminate].
@@ -190,7 +190,7 @@ Proof.
   destruct (f_opens f) as [|tag tags] eqn:Eo.
   - destruct (der_opens_nil _ _ _ _ Eb) as [Hv ->]. rewrite Hv. reflexivity.
   - rewrite Hsel.
-    pose proof (opens_rt std (f_tbl f) i (tag :: tags) tys O vs b []) as Hr.
+    pose proof (opens_rt (f_tbl f) i (tag :: tags) tys O vs b []) as Hr.
     rewrite app_nil_r in Hr. rewrite Hr; [reflexivity| |exact Htags|exact Hok|exact Eb|lia].
     intros k. rewrite Hrow. reflexivity.
 Qed.
@@ -198,19 +198,19 @@ Qed.
 (* ---------------- mismatches ---------------- *)
 
 (* an identifier that no row has: the frame is rejected whatever follows *)
-Theorem opentype_unknown_id_fails std f c idv r :
+Theorem opentype_unknown_id_fails f c idv r :
   f_opens f <> [] -> ber_dec (f_idt f) c = Some (idv, r) -> select (f_tbl f) idv = None ->
-  dec_frame_body std f c = None.
+  dec_frame_body f c = None.
 Proof.
   intros Hne Hid Hsel. unfold dec_frame_body. rewrite Hid, Hsel.
   destruct (f_opens f); [congruence|reflexivity].
 Qed.
 
 (* bytes that the selected row's type does not decode: rejected; no other row is tried *)
-Theorem opentype_mismatch_fails std f c idv r i t tys tag tags :
+Theorem opentype_mismatch_fails f c idv r i t tys tag tags :
   f_opens f = tag :: tags -> ber_dec (f_idt f) c = Some (idv, r) ->
-  select (f_tbl f) idv = Some (i, t :: tys) -> dec_open std tag t r = None ->
-  dec_frame_body std f c = None.
+  select (f_tbl f) idv = Some (i, t :: tys) -> dec_open tag t r = None ->
+  dec_frame_body f c = None.
 Proof.
   intros Ho Hid Hsel Hbad. unfold dec_frame_body. rewrite Hid, Ho, Hsel.
   cbn [dec_opens]. rewrite Hbad. reflexivity.
@@ -229,15 +229,15 @@ Proof.
     intros H. injection H as <- <-. eauto.
 Qed.
 
-Lemma dec_opens_rows std : forall tags tys i bs ovs r,
-  dec_opens std tags tys i bs = Some (ovs, r) ->
+Lemma dec_opens_rows : forall tags tys i bs ovs r,
+  dec_opens tags tys i bs = Some (ovs, r) ->
   length ovs = length tags /\ Forall (fun ov => fst ov = i) ovs.
 Proof.
   induction tags as [|tag tags IH]; intros tys i bs ovs r H; cbn [dec_opens] in H.
   - injection H as <- <-. split; [reflexivity|constructor].
   - destruct tys as [|t tys']; [discriminate|].
-    destruct (dec_open std tag t bs) as [[v r1]|]; [|discriminate].
-    destruct (dec_opens std tags tys' i r1) as [[ovs' r2]|] eqn:E; [|discriminate].
+    destruct (dec_open tag t bs) as [[v r1]|]; [|discriminate].
+    destruct (dec_opens tags tys' i r1) as [[ovs' r2]|] eqn:E; [|discriminate].
     injection H as <- <-. destruct (IH _ _ _ _ _ E) as [Hl Hf].
     split; [cbn [length]; congruence|constructor; [reflexivity|exact Hf]].
 Qed.
@@ -245,27 +245,27 @@ Qed.
 (* whatever the decoder accepts: the identifier has a row, every open-type member
    carries that row's presence index, and the first open-type value is what that
    row's type cell — and no other — decodes from the bytes after the identifier *)
-Theorem opentype_decodes_paired std f bs idv ovs rest :
-  f_opens f <> [] -> ber_dec_frame std f bs = Some ((idv, ovs), rest) ->
+Theorem opentype_decodes_paired f bs idv ovs rest :
+  f_opens f <> [] -> ber_dec_frame f bs = Some ((idv, ovs), rest) ->
   exists i tys c r, select (f_tbl f) idv = Some (i, tys) /\
     ber_dec (f_idt f) c = Some (idv, r) /\
     length ovs = length (f_opens f) /\ Forall (fun ov => fst ov = i) ovs /\
     (forall tag tags, f_opens f = tag :: tags ->
-       exists t tys' v ovs' r', tys = t :: tys' /\ ovs = (i, v) :: ovs' /\ dec_open std tag t r = Some (v, r')).
+       exists t tys' v ovs' r', tys = t :: tys' /\ ovs = (i, v) :: ovs' /\ dec_open tag t r = Some (v, r')).
 Proof.
   intros Hne H. unfold ber_dec_frame in H. apply in_cons_inv in H. destruct H as (c & r0 & H).
   unfold dec_frame_body in H.
   destruct (ber_dec (f_idt f) c) as [[idv' r]|] eqn:Eid; [|discriminate].
   destruct (f_opens f) as [|tag tags] eqn:Eo; [congruence|].
   destruct (select (f_tbl f) idv') as [[i tys]|] eqn:Es; [|discriminate].
-  destruct (dec_opens std (tag :: tags) tys i r) as [[ovs' r']|] eqn:Ed; [|discriminate].
+  destruct (dec_opens (tag :: tags) tys i r) as [[ovs' r']|] eqn:Ed; [|discriminate].
   injection H as -> -> ->.
   exists i, tys, c, r. split; [exact Es|]. split; [exact Eid|].
-  destruct (dec_opens_rows _ _ _ _ _ _ _ Ed) as [Hl Hf]. split; [exact Hl|]. split; [exact Hf|].
+  destruct (dec_opens_rows _ _ _ _ _ _ Ed) as [Hl Hf]. split; [exact Hl|]. split; [exact Hf|].
   intros tag0 tags0 E. injection E as <- <-. cbn [dec_opens] in Ed.
   destruct tys as [|t tys']; [discriminate|].
-  destruct (dec_open std tag t r) as [[v r1]|] eqn:E1; [|discriminate].
-  destruct (dec_opens std tags tys' i r1) as [[ovs'' r2]|]; [|discriminate].
+  destruct (dec_open tag t r) as [[v r1]|] eqn:E1; [|discriminate].
+  destruct (dec_opens tags tys' i r1) as [[ovs'' r2]|]; [|discriminate].
   injection Ed as <- <-. exists t, tys', v, ovs'', r1. auto.
 Qed.
 
@@ -314,17 +314,6 @@ Proof.
   exists [[(VInt 1, [TNull 20])]], (VInt 1). split; vm_compute; [discriminate|reflexivity].
 Qed.
 
-(* an open-type member without a tag of its own: DER is produced, a conforming
-   decoder (std) reads it back, the C's SEQUENCE decoder rejects it *)
-Theorem untagged_open_type_refuted :
-  exists f fv bs, der_frame f fv = Some bs /\ ber_dec_frame true f bs = Some (fv, []) /\
-                  ber_dec_frame false f bs = None.
-Proof.
-  exists (Frame (TInt 8 (ICon None None false)) [None] [(VInt 1, [TBool 4]); (VInt 2, [TNull 20])]),
-         (VInt 1, [(O, VBool true)]), [48; 6; 2; 1; 1; 1; 1; 255].
-  repeat split; vm_compute; reflexivity.
-Qed.
-
 (* ---------------- non-vacuity ---------------- *)
 
 Definition ex_frame : frame :=
@@ -344,20 +333,31 @@ Qed.
 Example roundtrip_example :
   let vs := [VSeq [VInt 300; VSome (VBool true)]; VNull] in
   select (f_tbl ex_frame) (VInt (-7)) = Some (2%nat, row_types (f_tbl ex_frame) 2) /\
-  tags_ok false (f_opens ex_frame) = true /\
+  tags_ok (f_opens ex_frame) = true /\
   opens_ok (row_types (f_tbl ex_frame) 2) vs = true /\
   der_frame ex_frame (VInt (-7), with_row 2 vs)
     = Some [48; 18; 128; 1; 249; 161; 9; 48; 7; 2; 2; 1; 44; 1; 1; 255; 162; 2; 5; 0] /\
-  ber_dec_frame false ex_frame [48; 18; 128; 1; 249; 161; 9; 48; 7; 2; 2; 1; 44; 1; 1; 255; 162; 2; 5; 0]
+  ber_dec_frame ex_frame [48; 18; 128; 1; 249; 161; 9; 48; 7; 2; 2; 1; 44; 1; 1; 255; 162; 2; 5; 0]
     = Some ((VInt (-7), with_row 2 vs), []).
 Proof. vm_compute. repeat split; reflexivity. Qed.
 
 (* identifier 2 (BOOLEAN, OCTET STRING) with the bytes of row 1 (INTEGER 5, TRUE):
    rejected although the bytes are a perfect value of another row *)
 Example mismatch_example :
-  ber_dec_frame false ex_frame [48; 13; 128; 1; 1; 161; 3; 2; 1; 5; 162; 3; 1; 1; 255]
+  ber_dec_frame ex_frame [48; 13; 128; 1; 1; 161; 3; 2; 1; 5; 162; 3; 1; 1; 255]
     = Some ((VInt 1, [(O, VInt 5); (O, VBool true)]), []) /\
-  ber_dec_frame false ex_frame [48; 13; 128; 1; 2; 161; 3; 2; 1; 5; 162; 3; 1; 1; 255] = None /\
-  ber_dec_frame false ex_frame [48; 13; 128; 1; 3; 161; 3; 2; 1; 5; 162; 3; 1; 1; 255] = None /\
+  ber_dec_frame ex_frame [48; 13; 128; 1; 2; 161; 3; 2; 1; 5; 162; 3; 1; 1; 255] = None /\
+  ber_dec_frame ex_frame [48; 13; 128; 1; 3; 161; 3; 2; 1; 5; 162; 3; 1; 1; 255] = None /\
   select (f_tbl ex_frame) (VInt 3) = None.
+Proof. vm_compute. repeat split; reflexivity. Qed.
+
+(* an open-type member without a tag of its own: the DER is the identifier followed
+   by the inner type's own TLV, and it is read back *)
+Example untagged_open_type_example :
+  let f := Frame (TInt 8 (ICon None None false)) [None] [(VInt 1, [TBool 4]); (VInt 2, [TNull 20])] in
+  let fv := (VInt 1, [(O, VBool true)]) in
+  tags_ok (f_opens f) = true /\
+  der_frame f fv = Some [48; 6; 2; 1; 1; 1; 1; 255] /\
+  ber_dec_frame f [48; 6; 2; 1; 1; 1; 1; 255] = Some (fv, []) /\
+  ber_dec_frame f [48; 6; 2; 1; 2; 1; 1; 255] = None.
 Proof. vm_compute. repeat split; reflexivity. Qed.
